@@ -276,6 +276,12 @@ pub(crate) fn validate_subscribe_packet_outbound(packet: &SubscribePacket) -> Gn
             error!("{}", message);
             return Err(GneissError::new_packet_validation(PacketType::Subscribe, message));
         }
+
+        if subscription.no_local && is_shared_topic_filter(&subscription.topic_filter) {
+            let message = "validate_subscribe_packet_outbound - no local may not be set on a shared subscription";
+            error!("{}", message);
+            return Err(GneissError::new_packet_validation(PacketType::Subscribe, message));
+        }
     }
 
     if let Some(subscription_identifier) = packet.subscription_identifier {
